@@ -46,7 +46,9 @@ func Soiltemp(g *GlobalVarsMain) {
 	for i := 0; i < g.N; i++ {
 		// the conductivity term 3*BD-1.7 is made for mineral soils (density classes 1.1 ... 1.85): below 0.57 g/cm3 (peat given
 		// with its measured bulk density) it is negative and the explicit scheme amplifies instead of smoothing; bounded below at 0.3
-		g.HEATCOND[i] = (math.Max(3*g.BD[i]-1.7, 0.3) * 0.001) / (1.0 + (11.5-5.0*g.BD[i])*math.Exp((-50)*math.Pow((g.WG[0][i]/g.BD[i]), 1.5))) * 86400 * g.DT.Num * 4.189
+		// the dryness term 11.5-5*BD belongs to the same range: above 2.3 g/cm3 (dense till given with its measured bulk density)
+		// it is negative, the conductivity of a dry layer grows without bound towards 2.5 g/cm3 and the scheme oscillates; bounded below at 0
+		g.HEATCOND[i] = (math.Max(3*g.BD[i]-1.7, 0.3) * 0.001) / (1.0 + math.Max(11.5-5.0*g.BD[i], 0)*math.Exp((-50)*math.Pow((g.WG[0][i]/g.BD[i]), 1.5))) * 86400 * g.DT.Num * 4.189
 		g.HEATCAP[i] = (g.WG[0][i]*1*1 + (1-g.BD[i]/2.65-g.WG[0][i])*0.0013*0.23 + g.HUMUS[i]*1.3*1.3*0.45 + (g.BD[i]/2.65-g.HUMUS[i]*1.3)*2.65*0.18) * 4.189
 		g.TDSUM[i] = 0
 	}
